@@ -65,7 +65,29 @@ func growCap(oldCap, newLen int, esz int64) int {
 // NOT applied by make: cap is exactly as requested).
 func roundupCap(c int, esz int64) int { return c }
 
+// copyElems deep-copies aggregate elements (structs/arrays are stored by
+// value in Go slices; in the VM they are reference-like host slices).
+func copyElems(add []value) []value {
+	needs := false
+	for _, e := range add {
+		switch e.(type) {
+		case structure, array:
+			needs = true
+		}
+		break
+	}
+	if !needs {
+		return add
+	}
+	out := make([]value, len(add))
+	for i, e := range add {
+		out[i] = copyVal(e)
+	}
+	return out
+}
+
 func appendSlice(old, add []value, esz int64) []value {
+	add = copyElems(add)
 	newLen := len(old) + len(add)
 	if newLen <= cap(old) {
 		return append(old, add...)
@@ -209,3 +231,25 @@ func (m *machine) noteFunc(fn *ssa.Function) {
 
 var _ = bits.Len
 var _ = fmt.Sprint
+
+// assignInPlace stores aggregate v into the existing storage at dst (field by
+// field) so that pointers into the destination stay valid, like store().
+func assignInPlace(dst *value, v value) {
+	switch v := v.(type) {
+	case structure:
+		if d, ok := (*dst).(structure); ok && len(d) == len(v) {
+			for i := range v {
+				assignInPlace(&d[i], v[i])
+			}
+			return
+		}
+	case array:
+		if d, ok := (*dst).(array); ok && len(d) == len(v) {
+			for i := range v {
+				assignInPlace(&d[i], v[i])
+			}
+			return
+		}
+	}
+	*dst = v
+}
